@@ -24,14 +24,14 @@ import (
 )
 
 type WorkerSpec struct {
-	Enabled         bool `json:"enabled"`
-	PullMs          int  `json:"pull_ms"`
-	PushRetryMs     int  `json:"push_retry_ms"`
-	PageSize        int  `json:"page_size"`
-	SyncMs          int  `json:"sync_ms"`
-	BatchMaxItems   int  `json:"batch_max_items"`
-	BatchFlushMs    int  `json:"batch_flush_ms"`
-	ExporterFaultP  int  `json:"exporter_fault_permille,omitempty"`
+	Enabled        bool `json:"enabled"`
+	PullMs         int  `json:"pull_ms"`
+	PushRetryMs    int  `json:"push_retry_ms"`
+	PageSize       int  `json:"page_size"`
+	SyncMs         int  `json:"sync_ms"`
+	BatchMaxItems  int  `json:"batch_max_items"`
+	BatchFlushMs   int  `json:"batch_flush_ms"`
+	ExporterFaultP int  `json:"exporter_fault_permille,omitempty"`
 }
 
 // AcceptRec is one Accept call seen by the terminal exporter.
@@ -106,9 +106,9 @@ func copyPipeline(p *ledger.Pipeline) *ledger.Pipeline {
 }
 
 type logFetcher struct {
-	s      *simReplStorage
-	store  *SimStore
-	key    string
+	s     *simReplStorage
+	store *SimStore
+	key   string
 }
 
 func (f logFetcher) ListLogs(ctx context.Context, q common.PaginatedQuery[any]) (*paginate.Cursor[ledger.Log], error) {
